@@ -133,6 +133,11 @@ pub fn gen_c14(run: &mut Run, seed: u64, thorough: bool) {
                     let (auth, aucl) = pick_auth(&collector, &mut rng, false);
                     run.op(&format!("gs.refund {} {} {} {} {}", hx(b"msg-7"), receiver.tok(), tok.tok(), amt, auth), &format!("refund{tcls}-{ac}-{aucl}"));
                 }
+                9 if rng.chance(1, 3) => {
+                    let pool: Vec<String> = [Addr::c(20), stranger.clone(), collector.clone(), spender.clone()].iter().map(|a| a.tok()).collect();
+                    let tl: Vec<String> = tokens.iter().map(|t| t.tok()).collect();
+                    run.op(&format!("gs.probe_extra {} {}", pool.join(","), tl.join(",")), "probe-unknown-entry-points");
+                }
                 9 => {
                     // user-to-user transfer (never touches the service)
                     let to = rng.pick(&spenders).clone();
